@@ -997,6 +997,8 @@ int KSI_SignatureBuilder_openFromAggregationResp(const KSI_AggregationResp *resp
 				/* Copy this tag to the signature. */
 				res = KSI_TLV_appendNestedTlv(tmpTlv, t);
 				if (res != KSI_OK) {
+					/* The element was removed from its list and nobody owns it yet. */
+					KSI_TLV_free(t);
 					KSI_pushError(ctx, res, NULL);
 					goto cleanup;
 				}
